@@ -520,6 +520,7 @@ FRESH_METHODS = {
     "startswith", "endswith", "lower", "upper", "strip", "replace", "encode", "decode", "bit_length",
     "reduceat", "reduce", "accumulate", "outer", "is_integer", "todense_fresh", "trace", "choose", "compress",
     "intersection", "union", "difference", "issubset", "isdisjoint", "total_seconds",
+    "sorted_indices", "toarray",
 }
 # methods whose result is (possibly) a view of / the receiver itself
 VIEW_METHODS = {
@@ -527,7 +528,10 @@ VIEW_METHODS = {
     "values", "items", "get", "pop", "popitem", "setdefault", "__getitem__",
 }
 # in-place ndarray methods: a Write of the receiver
-INPLACE_METHODS = {"sort", "fill", "put", "resize", "partition", "itemset", "setfield", "setflags", "byteswap"}
+INPLACE_METHODS = {"sort", "fill", "put", "resize", "partition", "itemset", "setfield", "setflags", "byteswap",
+                   # scipy.sparse matrices: these rewrite indptr/indices/data of the receiver in place
+                   "sum_duplicates", "sort_indices", "eliminate_zeros", "prune", "setdiag", "check_format"}
+SCIPY_INPLACE = {"sum_duplicates", "sort_indices", "eliminate_zeros", "prune", "setdiag"}
 # list/dict/set/deque mutators: the container now reaches the arguments; a Write of the container object
 CONTAINER_MUTATORS = {"append", "extend", "insert", "add", "update", "remove", "clear", "reverse", "discard",
                       "appendleft", "extendleft", "pop", "popitem", "setdefault"}
@@ -1477,6 +1481,74 @@ def extract_out_protocol(repo):
     return {"shallow_copy_is_dict_swap": dict_swap, "ufunc_swaps_only_out": only_out and not other_stores}
 
 
+def extract_scipy_discipline(G):
+    """every in-place scipy method (sum_duplicates, sort_indices, ...) called in the anchored files is applied to a
+    name that was re-bound, in the same block and before the call, to a private copy (`x = x.copy()` or another
+    fresh result such as `x.sorted_indices()`).  Returns the list of (function, call text, ok)."""
+    out = []
+    for r in G.recs:
+        if not r.anchored:
+            continue
+
+        def walk(stmts):
+            private = set()
+            for st in stmts:
+                if isinstance(st, ast.Assign) and len(st.targets) == 1 and isinstance(st.targets[0], ast.Name):
+                    v = st.value
+                    if (isinstance(v, ast.Call) and isinstance(v.func, ast.Attribute)
+                            and v.func.attr in ("copy", "sorted_indices", "tocsr", "tocsc", "tocoo") and not v.args
+                            and not any(k.arg == "copy" for k in v.keywords)
+                            and (v.func.attr in ("copy", "sorted_indices"))):
+                        private.add(st.targets[0].id)
+                    else:
+                        private.discard(st.targets[0].id)
+                for n in ast.walk(st) if not isinstance(st, (ast.If, ast.For, ast.While, ast.With, ast.Try)) else []:
+                    if (isinstance(n, ast.Call) and isinstance(n.func, ast.Attribute) and n.func.attr in SCIPY_INPLACE):
+                        recv = n.func.value
+                        out.append((r.qual, ast.unparse(n), isinstance(recv, ast.Name) and recv.id in private))
+                for fld in ("body", "orelse", "finalbody"):
+                    sub = getattr(st, fld, None)
+                    if isinstance(sub, list) and sub and isinstance(st, (ast.If, ast.For, ast.While, ast.With, ast.Try)):
+                        walk(sub)
+                if isinstance(st, ast.Try):
+                    for h in st.handlers:
+                        walk(h.body)
+                if isinstance(st, (ast.If, ast.While)):
+                    for n in ast.walk(st.test):
+                        if isinstance(n, ast.Call) and isinstance(n.func, ast.Attribute) and n.func.attr in SCIPY_INPLACE:
+                            out.append((r.qual, ast.unparse(n), False))
+        walk(r.node.body)
+    return out
+
+
+def dense_result_alias(G):
+    """for every method of a sparse class that returns a dense array (todense, maybe_densify, __array__): may the
+    returned array share a buffer with the receiver, according to the return summaries of the binding analysis?"""
+    out = []
+    for r in G.recs:
+        if r.cls in G.sparse_classes and r.name in ("todense", "maybe_densify", "__array__"):
+            out.append((r.qual, 0 in r.ret["b"].all()))
+    return out
+
+
+def extract_todense_alloc(repo):
+    """COO.todense allocates its result with np.full(...) as its first statement and every return returns that name"""
+    tree = ast.parse(open(os.path.join(repo, CORE)).read())
+    cls = next(n for n in tree.body if isinstance(n, ast.ClassDef) and n.name == "COO")
+    fn = next((n for n in cls.body if isinstance(n, ast.FunctionDef) and n.name == "todense"), None)
+    if fn is None:
+        raise Shape("COO.todense not found")
+    body = [x for x in fn.body if not (isinstance(x, ast.Expr) and isinstance(x.value, ast.Constant))]
+    first = body[0] if body else None
+    ok_alloc = (isinstance(first, ast.Assign) and len(first.targets) == 1 and isinstance(first.targets[0], ast.Name)
+                and isinstance(first.value, ast.Call) and norm_dotted(dotted(first.value.func)) == "np.full")
+    name = first.targets[0].id if ok_alloc else None
+    rets = [n for n in ast.walk(fn) if isinstance(n, ast.Return)]
+    ok_ret = bool(rets) and all(isinstance(n.value, ast.Name) and n.value.id == name for n in rets)
+    rebound = sum(1 for n in ast.walk(fn) if isinstance(n, ast.Name) and isinstance(n.ctx, ast.Store) and n.id == name)
+    return {"todense_allocates_first": ok_alloc, "todense_returns_only_allocation": ok_ret and rebound == 1}
+
+
 def coq_stmt(s):
     if s[0] == "W":
         return f"wR {s[1]}"
@@ -1537,12 +1609,29 @@ def gen_alias(repo):
     L.append("   and __array_ufunc__ applies it to the object popped from kwargs['out'] only *)")
     for k, v in outp.items():
         L.append(f"Definition {k} : bool := {coq_bool(v)}.")
+    disc = extract_scipy_discipline(G)
+    dra = dense_result_alias(G)
+    tda = extract_todense_alloc(repo)
+    L.append("")
+    L.append("(* scipy's in-place methods are only ever applied to a private copy made just before: (function, call, ok) *)")
+    for q, call, ok in disc:
+        L.append(f"(*   {q}: {call}  {'on a private copy' if ok else 'ON A VALUE THAT MAY BE THE CALLER`S'} *)")
+    L.append("Definition scipy_inplace_sites : list (string * bool) := ["
+             + "; ".join(f"({coq_str(q + ': ' + call)}, {coq_bool(ok)})" for q, call, ok in disc) + "].")
+    L.append("")
+    L.append("(* dense-returning methods: may the result share a buffer with the receiver (return summary)? *)")
+    L.append("Definition dense_result_may_alias : list (string * bool) := ["
+             + "; ".join(f"({coq_str(q)}, {coq_bool(a)})" for q, a in dra) + "].")
+    for k, v in tda.items():
+        L.append(f"Definition {k} : bool := {coq_bool(v)}.")
     n_writes = sum(len(r.write_info) for r, _ in obligations)
     rejected = {q: d["rejected_writes"] for q, d in rep_funcs.items() if d["rejected_writes"]}
     rep = {"effect_summaries": {"status": "ok", "functions": len(obligations), "helpers": len(helpers),
                                 "write_sites": n_writes, "fixpoint_rounds": rounds,
                                 "package_functions_analysed": len(G.recs), "rejected": rejected,
                                 "api_classes": G.sparse_classes, "out_protocol": outp,
+                                "scipy_inplace_sites": [list(x) for x in disc],
+                                "dense_result_may_alias": [list(x) for x in dra], "todense_alloc": tda,
                                 "calls_into_param_writing_functions_outside_anchored_files": foreign}}
     return "\n".join(L) + "\n", rep
 
